@@ -252,8 +252,23 @@ func (r *replica) observer() ro.Observer[any] {
 		r.log = append(r.log, g)
 		r.mu.Unlock()
 	}
+	nwin := 0
 	return ro.NewObserverWithContext(
-		func(ctx context.Context, v any) { recv("N", cat.Canon(v), ctx) },
+		func(ctx context.Context, v any) {
+			if w, ok := v.(ro.Observable[any]); ok {
+				// higher-order output (a window / group): number it and observe it at once
+				nwin++
+				j := nwin
+				recv("N", fmt.Sprint(1000+j), ctx)
+				w.SubscribeWithContext(ctx, ro.NewObserverWithContext(
+					func(ctx context.Context, x any) { recv("I", fmt.Sprint(100*j+x.(int)), ctx) },
+					func(ctx context.Context, err error) { recv("IE", fmt.Sprint(j), ctx) },
+					func(ctx context.Context) { recv("IC", fmt.Sprint(j), ctx) },
+				))
+				return
+			}
+			recv("N", cat.Canon(v), ctx)
+		},
 		func(ctx context.Context, err error) { recv("E", fmt.Sprint(cat.CauseOf(err)), ctx) },
 		func(ctx context.Context) { recv("C", "0", ctx) },
 	)
